@@ -26,6 +26,7 @@ import (
 	"strconv"
 	"strings"
 	"time"
+	"unicode/utf8"
 
 	"github.com/hedzr/is"
 	"github.com/hedzr/is/term/color"
@@ -81,6 +82,8 @@ type encRec struct {
 	Msg     []string   `json:"msg"`
 	Attrs   []*encNode `json:"attrs"`
 	LC      encLC      `json:"lc"`
+	Form    string     `json:"form,omitempty"` // "thru" (Entry.WriteThru) | "call-attr" | "call-kv" (Logit with Attr values / key, value pairs)
+	Env     string     `json:"env,omitempty"`  // "default" | "nocolor" (is.SetNoColorMode(true) while the record is formatted)
 }
 
 type encCase struct {
@@ -115,12 +118,14 @@ var encPools = map[string][]string{
 	"C0":       {"\a", "\v", "\x00", "\x01", "\x1f", "\x0e"},
 	"ESC":      {"\x1b", "\x1b[2J", "\x1b]0;t\x1b\\", "\x1b[38;5;201m"},
 	"DEL":      {"\x7f"},
+	"C1":       {"\u009b", "\u0085", "\u0080", "\u009f", "\u009b31m", "\u0090", "\u009b2J"}, // C1 controls in UTF-8 (U+009B = CSI)
+	"C1raw":    {"\x9b", "\x80", "\x9b31m", "\x85", "\x9f", "\x9b2J"},                   // the same controls as single bytes: not UTF-8
 	"nonascii": {"é", "中", "Ж", "ü", "\ufffd", "a\ufffdb"}, // incl. a well-formed U+FFFD (not an invalid byte!)
-	"npbmp":    {"\u200b", "\u0085", "\ufeff", "\u00ad", "\u00a0"},
+	"npbmp":    {"\u200b", "\ufeff", "\u00ad", "\u00a0"},
 	"lsep":     {"\u2028", "\u2029"},
 	"astral":   {"😀", "𝒜"},
 	"astralnp": {"\U000e0001", "\U0001d173", "\U0010ffff"},
-	"invalid":  {"\xff", "\x80", "\xc3", "\xed\xa0\x80", "\xf0\x9f"},
+	"invalid":  {"\xff", "\xc3", "\xfe", "\xed\xa0\xa0", "\xe2\xa0", "\xf5"}, // not UTF-8, no byte in 0x80..0x9f (those are C1raw)
 	"markup":   {"<", ">", "&", "<b>", "</i>", "&amp;"},
 	"equals":   {"="},
 }
@@ -294,11 +299,16 @@ func (g *encGen) scalar(kind string, id int, text string) (any, []any) {
 		return time.Duration(int64(id)*int64(time.Millisecond) + r.Int63n(int64(72*time.Hour))), nil
 	case "time":
 		t := encTS.Add(time.Duration(id)*time.Second + time.Duration(r.Int63n(int64(time.Hour))))
-		switch g.pick(3) {
+		// the three zone classes of spec/Encoder.tla: UTC, an offset of whole minutes, an offset with a seconds part
+		switch g.pick(5) {
 		case 0:
 			t = t.In(time.FixedZone("X", 5*3600+1800))
 		case 1:
 			t = t.Add(-time.Duration(r.Int63n(int64(30 * 365 * 24 * time.Hour)))).In(time.FixedZone("Y", -7*3600))
+		case 2:
+			t = t.In(time.FixedZone("AMT", 19*60+32)) // Europe/Amsterdam until 1937: +00:19:32
+		case 3:
+			t = t.Add(-time.Duration(r.Int63n(int64(50 * 365 * 24 * time.Hour)))).In(time.FixedZone("MMT", -(44*60 + 30))) // Africa/Monrovia until 1972
 		}
 		return t, nil
 	}
@@ -465,15 +475,30 @@ func (r *encRun) key(n *encNode, probe bool) string {
 }
 
 func (r *encRun) build(nodes []*encNode, path []int, depth int) slog.Attrs {
-	out := make(slog.Attrs, 0, len(nodes))
+	items := r.buildArgs(nodes, path, depth, false)
+	out := make(slog.Attrs, 0, len(items))
+	for _, it := range items {
+		out = append(out, it.(slog.Attr))
+	}
+	return out
+}
+
+// buildArgs concretises an attribute list as an ARGUMENT list: Attr values (kv = false), or alternating key,
+// value pairs (kv = true) - then the members of a group are handed to slog.Group the same way, and the group
+// itself is one Attr argument among the pairs.
+func (r *encRun) buildArgs(nodes []*encNode, path []int, depth int, kv bool) []any {
+	out := make([]any, 0, 2*len(nodes))
 	for _, n := range nodes {
 		p := append(append([]int(nil), path...), n.K)
 		r.nodesAt[encPathKey(p)] = append(r.nodesAt[encPathKey(p)], n)
 		pr := r.c.Probe
 		if n.Kind == "group" {
 			key := r.key(n, pr != nil && pr.Pos == "gkey" && n.KC == pr.Cls && depth == 0)
-			sub := r.build(n.Sub, p, depth+1)
-			out = append(out, slog.NewGroupedAttr(key, []slog.Attr(sub)...))
+			if kv {
+				out = append(out, slog.Group(key, r.buildArgs(n.Sub, p, depth+1, true)...))
+			} else {
+				out = append(out, slog.NewGroupedAttr(key, []slog.Attr(r.build(n.Sub, p, depth+1))...))
+			}
 			continue
 		}
 		key := r.key(n, pr != nil && pr.Pos == "key" && n.KC == pr.Cls && depth == 0)
@@ -497,9 +522,26 @@ func (r *encRun) build(nodes []*encNode, path []int, depth int) slog.Attrs {
 		} else {
 			n.conc, n.elem = r.g.scalar(n.Kind, n.V, n.text)
 		}
-		out = append(out, slog.NewAttr(key, n.conc))
+		if kv {
+			out = append(out, key, n.conc)
+		} else {
+			out = append(out, slog.NewAttr(key, n.conc))
+		}
 	}
 	return out
+}
+
+// encCall logs a record through a public entry point with an argument list (forms "call-attr" /
+// "call-kv"); the caller field must name this function, a line of lo..hi.
+//
+//go:noinline
+func encCall(l *slog.Entry, lvl slog.Level, msg string, args []any) (lo, hi int, file, fn string) {
+	lo = enchLine()
+	pc, f, _, _ := runtime.Caller(0)
+	file, fn = f, runtime.FuncForPC(pc).Name()
+	l.Logit(encBg, lvl, msg, args...)
+	hi = enchLine()
+	return
 }
 
 // encCallSite is the frame the caller field must name when it is switched on.
@@ -575,10 +617,13 @@ func (c *encCapture) Write(p []byte) (int, error) {
 var encLoggers = map[string]*slog.Entry{}
 var encCap = &encCapture{}
 
-func encLogger(format, name string, has bool) *slog.Entry {
+func encLogger(format, name string, has, call bool) *slog.Entry {
 	k := format + "\x00" + name
 	if !has {
 		k = format
+	}
+	if call {
+		k = "call\x00" + k
 	}
 	if l, ok := encLoggers[k]; ok {
 		return l
@@ -600,6 +645,9 @@ func encLogger(format, name string, has bool) *slog.Entry {
 		l.SetColorMode(true)
 	}
 	l.SetLevel(slog.TraceLevel)
+	if call { // records enter through Logit: the gate must let every severity pass (WriteThru has no gate)
+		l.SetLevel(slog.AlwaysLevel)
+	}
 	encLoggers[k] = l
 	return l
 }
@@ -652,7 +700,19 @@ func encMain(args []string) int {
 				r.name = "svc" + r.g.seq(c.Name.Cls)
 			}
 		}
-		attrs := r.build(c.Attrs, nil, 0)
+		if c.Form == "" {
+			c.Form = "thru"
+		}
+		if c.Env == "" {
+			c.Env = "default"
+		}
+		var attrs slog.Attrs
+		var callArgs []any
+		if c.Form == "thru" {
+			attrs = r.build(c.Attrs, nil, 0)
+		} else {
+			callArgs = r.buildArgs(c.Attrs, nil, 0, c.Form == "call-kv")
+		}
 
 		if c.Caller {
 			slog.SetFlags(baseFlags | slog.Lcaller)
@@ -661,7 +721,7 @@ func encMain(args []string) int {
 		}
 		slog.SetLevelOutputWidth(c.Width)
 		slog.SetMessageMinimalWidth(c.Minw)
-		l := encLogger(c.Fmt, r.name, c.Name.Has)
+		l := encLogger(c.Fmt, r.name, c.Name.Has, c.Form != "thru")
 		if c.LC.Fg == "" {
 			c.LC.Fg, c.LC.Bg = "none", "none"
 		}
@@ -689,22 +749,41 @@ func encMain(args []string) int {
 			pc = 0
 		}
 		panicked := ""
+		lineHi := 0
+		if c.Env == "nocolor" { // the process-wide no-colour switch of github.com/hedzr/is (a --no-color option sets it)
+			is.SetNoColorMode(true)
+		}
+		t0 := time.Now()
 		func() {
 			defer func() {
 				if e := recover(); e != nil {
 					panicked = fmt.Sprint(e)
 				}
 			}()
-			l.WriteThru(context.Background(), slog.Level(c.Sev), encTS, pc, r.msg, attrs)
+			if c.Form == "thru" {
+				l.WriteThru(context.Background(), slog.Level(c.Sev), encTS, pc, r.msg, attrs)
+			} else {
+				// a logging call: the time is now, the call site is encCall (sites behind //line directives are
+				// reached through WriteThru only - the orchestrator generates call forms with site 0)
+				line, lineHi, file, fn = encCall(l, slog.Level(c.Sev), r.msg, callArgs)
+			}
 		}()
+		t1 := time.Now()
+		if c.Env == "nocolor" {
+			is.SetNoColorMode(false)
+		}
 		if c.LC.Set {
 			encRestoreColours(c.Sev)
+		}
+		encTSOK = encTSFixed
+		if c.Form != "thru" {
+			encTSOK = encTSWindow(t0, t1)
 		}
 		var payload []byte
 		for _, ch := range encCap.chunks {
 			payload = append(payload, ch...)
 		}
-		site := encSite{file: file, line: line, fn: fn}
+		site := encSite{file: file, line: line, lineHi: lineHi, fn: fn}
 		var obs map[string]any
 		switch c.Fmt {
 		case "json":
@@ -787,13 +866,31 @@ func encProbeForm(payload []byte, cls, rep string) ([]string, bool) {
 	return encTokens(rest[:j], cls), true
 }
 
-var encControlCls = map[string]bool{"LF": true, "CR": true, "TAB": true, "BSFF": true, "C0": true, "ESC": true, "DEL": true}
+// ColorUnsafe of spec/Encoder.tla: the C0 controls, ESC, DEL and the C1 controls (UTF-8 encoded / as single bytes)
+var encControlCls = map[string]bool{"LF": true, "CR": true, "TAB": true, "BSFF": true, "C0": true, "ESC": true, "DEL": true,
+	"C1": true, "C1raw": true}
+
+// encControlAt: does a control character start at s[i]?  (a byte < 0x20, DEL, a code point U+0080..U+009F, or a
+// byte 0x80..0x9f that is not part of a UTF-8 sequence); w = the width of what sits there.
+func encControlAt(s string, i int) (ctl bool, w int) {
+	b := s[i]
+	if b < 0x80 {
+		return b < 0x20 || b == 0x7f, 1
+	}
+	r, w := utf8.DecodeRuneInString(s[i:])
+	if r == utf8.RuneError && w <= 1 {
+		return b <= 0x9f, 1
+	}
+	return r >= 0x80 && r <= 0x9f, w
+}
 
 func encHasControl(s string) bool {
-	for i := 0; i < len(s); i++ {
-		if s[i] < 0x20 || s[i] == 0x7f {
+	for i := 0; i < len(s); {
+		ctl, w := encControlAt(s, i)
+		if ctl {
 			return true
 		}
+		i += w
 	}
 	return false
 }
